@@ -60,8 +60,10 @@ def pick_interpreter():
     PY["exe"], PY["numpy"] = sys.executable, None
 
 
-def run_py(script, args, hashseed, out):
+def run_py(script, args, hashseed, out, extra_env=None):
     env = dict(os.environ, PYTHONPATH=MOD, PYTHONHASHSEED=hashseed, PYTHONDONTWRITEBYTECODE="1")
+    env.pop("PYTHONWARNINGS", None)
+    env.update(extra_env or {})
     if os.path.exists(out):
         os.remove(out)
     r = subprocess.run([PY["exe"], script] + args + ["--out", out], env=env, capture_output=True, text=True)
@@ -85,8 +87,15 @@ def conformance(tier, seed, tmp):
     run_py(CONF, ["emit", "--seed", str(seed), "--tier", tier, "--numpy", "1" if PY["numpy"] else "0"], "0", jobs)
     run_twin(jobs, ref)
     c1 = run_py(CONF, ["run", "--jobs", jobs, "--ref", ref], "0", os.path.join(tmp, "conf1.json"))
-    c2 = run_py(CONF, ["run", "--jobs", jobs, "--ref", ref], "random", os.path.join(tmp, "conf2.json"))
+    # the second interpreter differs in two ways a deployment may differ: hash seed, and warnings turned into errors
+    # (python -W error, pytest filterwarnings = error): the Rust operations never warn
+    c2 = run_py(CONF, ["run", "--jobs", jobs, "--ref", ref], "random", os.path.join(tmp, "conf2.json"), {"PYTHONWARNINGS": "error"})
     if c1["digest"] != c2["digest"]:
+        if c2.get("mismatches") and not c1.get("mismatches"):
+            for m in c2["mismatches"]:
+                m["mismatch"]["interpreter"] = "warnings turned into errors (PYTHONWARNINGS=error)"
+                m["interpreter_env"] = {"PYTHONWARNINGS": "error"}
+            return c2
         harness_error(f"two interpreters disagree on the conformance log: {c1['digest']} vs {c2['digest']}")
     return c1
 
@@ -105,7 +114,7 @@ def minimise_conformance(mm, tmp):
     jp, rp = os.path.join(tmp, "min_jobs.json"), os.path.join(tmp, "min_ref.json")
     json.dump([cand], open(jp, "w"))
     run_twin(jp, rp)
-    r = run_py(CONF, ["run", "--jobs", jp, "--ref", rp], "0", os.path.join(tmp, "min_conf.json"))
+    r = run_py(CONF, ["run", "--jobs", jp, "--ref", rp], "0", os.path.join(tmp, "min_conf.json"), mm.get("interpreter_env"))
     if r["mismatch"]:
         return cand, len(job["ops"]) - len(cand["ops"])
     return job, 0
@@ -148,7 +157,7 @@ def main():
         jp, rp = os.path.join(tmp, "replay_jobs.json"), os.path.join(tmp, "replay_ref.json")
         json.dump([rf["job"]], open(jp, "w"))
         run_twin(jp, rp)
-        r = run_py(CONF, ["run", "--jobs", jp, "--ref", rp], "0", os.path.join(tmp, "replay_conf.json"))
+        r = run_py(CONF, ["run", "--jobs", jp, "--ref", rp], "0", os.path.join(tmp, "replay_conf.json"), rf.get("interpreter_env"))
         print(json.dumps({"job": rf["job"], "mismatch": r["mismatch"] and r["mismatch"]["mismatch"]}, indent=1)[:4000])
         if r["mismatch"]:
             print(f"VIOLATION property=C17 replay={a.replay}")
@@ -191,7 +200,7 @@ def main():
         os.makedirs(os.path.join(VERIF, "replays"), exist_ok=True)
         path = os.path.join(VERIF, "replays", f"C17-seed{a.seed}-conf{mm['job_index']}.json")
         json.dump({"property": "C17", "tier_of_violation": "conformance", "seed": a.seed, "job_index": mm["job_index"], "job": job,
-                   "operations_dropped_by_minimisation": dropped, "mismatch": mm["mismatch"], "finding_key": key}, open(path, "w"), indent=1)
+                   "operations_dropped_by_minimisation": dropped, "mismatch": mm["mismatch"], "finding_key": key, "interpreter_env": mm.get("interpreter_env")}, open(path, "w"), indent=1)
         print(f"conformance mismatch in job {mm['job_index']} ({job.get('class') or job.get('driver')}) at {mm['mismatch']['what']}; {dropped} operations dropped by minimisation")
         print("  " + json.dumps(mm["mismatch"])[:600])
         print(f"VIOLATION property=C17 replay={path}")
@@ -243,7 +252,7 @@ def main():
             "max_callable_invocations_in_one_driver_call": st["max_invocations"],
             "simulated_runs_per_hour": int(st["runs"] / sim_wall * 3600), "seeds_per_hour_at_this_tier": int(3600 / max(wall, 1e-9)),
             "simulated_time": "none: no clock or timer exists in the code under test; a run is one driver call",
-            "determinism_check": {"interpreters": 2, "PYTHONHASHSEED": ["0", "random"], "digest": r1["digest"], "digest_equal": deterministic},
+            "determinism_check": {"interpreters": 2, "PYTHONHASHSEED": ["0", "random"], "PYTHONWARNINGS_of_the_second_conformance_interpreter": "error", "digest": r1["digest"], "digest_equal": deterministic},
             "real_components": ["the extension module built from /repo (pyo3 glue, length-dispatch chains of the 10 driver functions, Rust try_* drivers, dual arithmetic)", "CPython"],
             "stubbed_components": ["the user callable (Probe): numbers its invocations and injects the planned fault"],
             "invariants": ["R  (conformance tier) every register, repr and driver result equals the Rust reference model bit for bit",
